@@ -100,7 +100,7 @@ CLAIMED["C19"] = dict(
           "epsilon) for 2 and 3 variables; Hessian stencils exact to total degree order+1 with dx_i*dx_j divisor and axis selection."
           " EffectivePotential.derivT/derivField/deriv2FieldT/deriv2Field2/allSecondDerivatives are run end to end through the real helpers on a generic cubic polynomial potential of two fields and T: each returns exactly the partial derivatives it is named after (axes, scales, slicing, private combined-scales array), and derivT never evaluates at a negative temperature."),
     note=COMMON_NOTE + " Rounding is not modelled ((x+dx)-x == dx exactly). Bounded and labelled as such in the evidence: output shape for array "
-         "inputs is checked for length-2 arrays / a (2,2) batch only; 3-variable order-4 gradient uses degree 2 per variable." + " Not modelled: array dtypes (an integer fields array that truncates the temperature is not seen; seed C19e ends undecided).",
+         "inputs is checked for length-2 arrays / a (2,2) batch only; 3-variable order-4 gradient uses degree 2 per variable." + " Array dtypes are modelled only as 'this pre-state array is integer' (stores truncate; derivField is also checked with an integer fields array); nothing else about dtypes.",
     design="3 (C19)")
 
 CLAIMED["C01"] = dict(
